@@ -212,21 +212,7 @@ def r4(chk, ctx):
     chk.floor("C18.R4", n, 2, "may-raise sinks of notify after start_execution")
     # dispatch: poison arms acknowledge (C03.R3) and use only names bound before the try
     c03.r3(chk, ctx)
-    ed = ctx.mod("event_dispatcher")
-    disp = ed.func("EventDispatcher.dispatch")
-    for tr in [n for n in body_nodes(disp) if isinstance(n, ast.Try)]:
-        bound_in_try = set()
-        for s in tr.body:
-            for x in ast.walk(s):
-                if isinstance(x, ast.Name) and isinstance(x.ctx, ast.Store):
-                    bound_in_try.add(x.id)
-        params = {a.arg for a in disp.node.args.args}
-        for h in tr.handlers:
-            used = {x.id for x in ast.walk(h) if isinstance(x, ast.Name) and isinstance(x.ctx, ast.Load)}
-            bad = sorted((used & bound_in_try) - params - ({h.name} if h.name else set()))
-            chk.ob("C18.R4", "dispatch: except %s uses no name bound only inside the try" % (norm(h.type) if h.type else "bare"), not bad, str(bad),
-                   key="EventDispatcher.dispatch | handler reads %s, which may be unbound when the try failed early" % bad, where=ed.line(h),
-                   message="the handler itself raises (UnboundLocalError) for a message that fails before the binding: the poison message is never acknowledged")
+    c03.r3b(chk, ctx)
 
 
 def r5(chk, ctx):
